@@ -191,6 +191,8 @@ class P(Prop):
         for b in base[:4]:
             for k in range(30 if tier == "quick" else 500):
                 yield dict(b, seed=0, policy="np", flaky=0.0, pipe=None, pb1=k)
+            for k in range(0 if tier == "quick" else 800):
+                yield dict(b, seed=0, policy="np", flaky=0.0, pipe=None, pb2=k)
 
     def impl(self, case):
         return S.pb_run(case, run_case)
